@@ -203,6 +203,7 @@ type relayEnv struct {
 
 	mu    sync.Mutex
 	procs [2]*procRec
+	mode  string // caseSpec.Procs of the stream about to be opened
 }
 
 func (env *relayEnv) activity() string {
@@ -219,10 +220,18 @@ func newRelayEnv() (*relayEnv, error) {
 	}
 	env.ln = ln
 	factory := mgrpc.AsStreamProcessorFactory(func(_ *url.URL, server, client mgrpc.Processor) (mgrpc.Processor, mgrpc.Processor) {
-		p0, p1 := &procRec{dest: server}, &procRec{dest: client}
 		env.mu.Lock()
-		env.procs = [2]*procRec{p0, p1}
-		env.mu.Unlock()
+		defer env.mu.Unlock()
+		env.procs = [2]*procRec{}
+		var p0, p1 mgrpc.Processor
+		if env.mode == "" || env.mode == "c2s" {
+			env.procs[0] = &procRec{dest: server}
+			p0 = env.procs[0]
+		}
+		if env.mode == "" || env.mode == "s2c" {
+			env.procs[1] = &procRec{dest: client}
+			p1 = env.procs[1]
+		}
 		return p0, p1
 	})
 	cfg := &h2.Config{RootCAs: caPool, StreamProcessorFactories: []h2.StreamProcessorFactory{factory}}
@@ -305,6 +314,7 @@ func execRelay(r *vh.Run, c *caseSpec) (*obs, string) {
 	env.nextID += 2
 	env.mu.Lock()
 	env.procs = [2]*procRec{}
+	env.mode = c.Procs
 	env.mu.Unlock()
 
 	o := &obs{}
